@@ -201,6 +201,7 @@ def huge_items():
 
 
 def run(ctx):
+    C.config_matrix(ctx["report"], ctx["rundir"], "C01", ["1/2 + 1/3", "10^30/10", "(10^20+1)/2", "7 % -2", "int(-7/2)", "10^5000 + 1", "1e5000/3", "3^30000 % 10^20", "(3/2)^64", "2^10 - 1/3", "0/5", "5/0", "abs(-(10^1500))", "floor((10^1500+1)/7)"])
     C.expect_sessions(ctx["report"], ctx["rundir"], "C01", huge_items(), kind="huge-result")
     rep, tier, seed = ctx["report"], ctx["tier"], ctx["seed"]
     rng = random.Random(seed * 7919 + 1)
